@@ -145,15 +145,18 @@ AllowedOwners(st) ==
     [] st.op = "init" -> {MAIN}
     [] OTHER -> {REFS}
 
-\* can the model apply the step at all (its inputs are intact in the ghost)?
+\* can the model apply the step at all (its inputs are intact in the ghost)?  A location damaged by an
+\* earlier (reported) violation is not used again as subject, source or issuing handle.
+Intact(x) == x \in DOMAIN lat /\ <<x, lat[x]>> \in DOMAIN g /\ g[<<x, lat[x]>>] \notin {ERR, GARBLED}
 Applicable(st) ==
+  ("via" \in DOMAIN st => Intact(st.via)) /\
   CASE st.op = "init" -> TRUE
     [] st.op \in {"append", "delete", "cleanup"} ->
          st.on \in DOMAIN lat /\ <<st.on, lat[st.on]>> \in DOMAIN g /\ g[<<st.on, lat[st.on]>>] \notin {ERR, GARBLED}
     [] st.op \in {"create_branch", "clone", "create_tag", "update_tag"} ->
          <<st.src, st.mv>> \in DOMAIN g /\ g[<<st.src, st.mv>>] \notin {ERR, GARBLED}
          /\ (st.op = "create_branch" => st.name \notin liveB)
-    [] st.op = "delete_branch" -> st.name \in liveB
+    [] st.op = "delete_branch" -> st.name \in liveB /\ Intact(st.name)
     [] st.op = "delete_tag" -> st.tag \in DOMAIN tags
     [] OTHER -> FALSE
 
